@@ -52,8 +52,13 @@ parser! {
 		rule uint_str() -> &'input str = a:$(digit()+ ("_" digit()+)*) { a }
 		/// Integer part of a number: no leading zeros
 		rule int_str() = "0" / ['1'..='9'] digit()* ("_" digit()+)*
-		/// Number in scientific notation format
-		rule number() -> f64 = quiet!{a:$(int_str() ("." uint_str())? (['e'|'E'] (s:['+'|'-'])? uint_str())?) {? a.replace("_","").parse().map_err(|_| "<number>") }} / expected!("<number>")
+		/// Exponent of a number
+		rule exp_str() = ['e'|'E'] ['+'|'-']? uint_str()
+		/// Exponent marker (and sign) followed by something that is not a digit
+		rule exp_junk() = ['e'|'E'] ['+'|'-']? !digit() [_]
+		/// Number in scientific notation format; junk glued to the decimal point or to the exponent
+		/// marker (`1.a`, `1else`) is an error, as in the lexer
+		rule number() -> f64 = quiet!{a:$(int_str() ("." uint_str() / !("." !digit() [_])) (exp_str() / !exp_junk())) {? a.replace("_","").parse().map_err(|_| "<number>") }} / expected!("<number>")
 
 		/// Reserved word followed by any non-alphanumberic
 		rule reserved() = ("assert" / "else" / "error" / "false" / "for" / "function" / "if" / "importstr" / "importbin" / "import" / "in" / "local" / "null" / "tailstrict" / "then" / "self" / "super" / "true") end_of_ident()
